@@ -16,7 +16,15 @@ Oracle (from the statement):
  (c) del  : after `del n` (name bound only by that binder, same scope) the later use line is the
             tree of its explicit `![...]` spelling and runs the same spawn;
  (d) atomic: if Execer.exec(P + broken tail) raises SyntaxError then nothing of P ran (empty
-            operation log, no spawn, namespace untouched).
+            operation log, no spawn, namespace untouched);
+ (h) hist : several inputs in ONE session (same Execer, same globals/locals dicts, the real builtins
+            module) while the name is added to / removed from builtins, the session globals or the
+            exec locals - by the harness between inputs or by an input itself - after a non-trivial
+            warm-up input (and optionally a first use while still unbound, which must spawn): every
+            input is judged by the bindings that exist when IT is compiled (bound anywhere -> clauses
+            a+b against CPython run in lock-step; unbound again -> tree and spawn of the explicit
+            ![...] spelling).  The tree is the one Execer.compile really compiles (captured at
+            Execer.parse), so stale per-session state in Execer.compile is visible.
 
 Does NOT require (never flagged):
  * any treatment of names that are not bound at the use (bound later, only in a sibling/inner scope,
@@ -1015,7 +1023,7 @@ def enumerate_items(thorough):
         with _Slice("py: binder x placement(depth<=2) x focus"):
             for o, i in pl2:
                 for b in binders:
-                    for f in both:
+                    for f in both if len(o) + len(i) <= 1 else ("head",):
                         add(("py", _T(b=b, o=o, i=i, f=f)))
         with _Slice("py: binder x placement(depth<=1) x core uses"):
             for o, i in pl1:
@@ -1027,14 +1035,15 @@ def enumerate_items(thorough):
                 for b in binders:
                     add(("py", _T(b=b, w=w)))
             for w in wraps:
-                for b in reps[:3]:
+                for b in reps[:2]:
                     for u in uses:
                         add(("py", _T(b=b, w=w, u=u)))
         with _Slice("py: binder x interlude x {module, function}"):
             for o in ("", "f"):
                 for mid in mids:
                     for b in binders:
-                        add(("py", _T(b=b, o=o, mid=mid)))
+                        if o == "" or b in fam_reps:
+                            add(("py", _T(b=b, o=o, mid=mid)))
         with _Slice("py: binder pairs (assign x every b2, every binder x b2=assign)"):
             for f in both:
                 for b2 in S.B2_OK:
@@ -1088,7 +1097,8 @@ def enumerate_items(thorough):
             for o in sc1:
                 for dform in S.DEL_ORDER:
                     for b in delb:
-                        add(("del", _T(b=b, o=o), dform))
+                        if o == "" or b in fam_reps:
+                            add(("del", _T(b=b, o=o), dform))
             for o in sc2:
                 for b in delb:
                     add(("del", _T(b=b, o=o), "del"))
@@ -1153,32 +1163,22 @@ def enumerate_items(thorough):
         hs2 = S.histories(2)
         hs3 = [h for h in S.histories(3) if len(h) == 3]
 
-        def firsts(u, both_firsts):
-            if not S.USES[u]["cmd"]:
-                return ("W",)
-            return ("W", "WC") if both_firsts else ("WC",)
+        def firsts(u):
+            return ("W", "WC") if S.USES[u]["cmd"] else ("W",)
 
-        for ev in hs2:
+        for ev in (hs2 + hs3 if thorough else hs2):
             for mode in S.HIST_MODES:
                 for u in uses:
-                    for first in firsts(u, thorough or u in core):
+                    for first in firsts(u):
                         add(("hi", (first, mode, ev, u, "head", "n")))
-                for u in (uses if thorough else core):
                     add(("hi", ("W", mode, ev, u, "arg", "n")))
         for ev in (hs2 + hs3 if thorough else hs2):
             if "+B" not in ev:
                 continue
             for mode in S.HIST_MODES:
-                for u in core:
-                    for first in firsts(u, thorough):
+                for u in uses:
+                    for first in firsts(u):
                         add(("hi", (first, mode, ev, u, "head", "_")))
-        if thorough:
-            for ev in hs3:
-                for mode in S.HIST_MODES:
-                    for u in core:
-                        for first in firsts(u, True):
-                            add(("hi", (first, mode, ev, u, "head", "n")))
-                        add(("hi", ("W", mode, ev, u, "arg", "n")))
     return items, slices
 
 
@@ -1219,7 +1219,11 @@ def run(ctx):
         vs[0]["note"] = f"{len(vs)} enumerated programs minimise to this key"
         ctx.add_violations(vs)
     if not reached["py"] or not reached["del"] or not reached["hi"] or not syntax_tails:
-        raise common.ToolError(f"a clause was never exercised: {reached} syntax-error tails={syntax_tails}")
+        known = {k.get("key") for k in common.load_known_findings() if k.get("property") == ctx.prop and k.get("status") == "open"}
+        msg = f"a clause was never exercised: {reached} syntax-error tails={sorted(syntax_tails)}"
+        if all(k in known for k in per_key):
+            raise common.ToolError(msg)  # nothing new to report: the run itself is not trustworthy
+        ctx.notes.append(msg + " (reported next to the new violations instead of a tool error)")
     # evidence samples: real programs, one per clause / interesting corner
     for c, extra in (
         (dict(b="assign"), None),
